@@ -37,6 +37,8 @@ var Real64Type ScalarType = NewReal64(0.0).Type()
 func init() {
   f := func(value float64) Scalar { return NewReal64(float64(value)) }
   RegisterScalar(Real64Type, f)
+  g := func(value float64) MagicScalar { return NewReal64(float64(value)) }
+  RegisterMagicScalar(Real64Type, g)
 }
 /* constructors
  * -------------------------------------------------------------------------- */
